@@ -332,8 +332,35 @@ def gen_failure():
     op2 = cmp_fact(P.find_def(cm, "Constraint.checkToken"), "", "size", "limit", "Constraint.checkToken")
     out.append("Definition bytestring_object_rejects : cmpop := %s.   (* raise Violation if len(obj) OP maxLength *)" % op1)
     out.append("Definition token_size_rejects : cmpop := %s.   (* raise Violation if size OP limit *)" % op2)
+    # which token types a BOUNDED ByteStringConstraint (maxLength given, as in FailureConstraint) accepts: the dict that ends
+    # up in self.taster -- assigned in __init__, unconditionally or under `if [self.]maxLength is not None:`, else the class
+    # attribute.  STRING must be limited by maxLength; VOCAB (a word of the negotiated table) must be accepted, unlimited.
+    bsc = P.find_class(cm, "ByteStringConstraint")
     bsi = P.find_def(cm, "ByteStringConstraint.__init__")
-    need("self.taster = {STRING: self.maxLength, VOCAB: None}" in U(bsi), "ByteStringConstraint taster changed")
+    need([a.arg for a in bsi.args.args][:2] == ["self", "maxLength"], "ByteStringConstraint.__init__ signature changed")
+    need("self.maxLength = maxLength" in [U(x) for x in bsi.body], "ByteStringConstraint.__init__ no longer stores maxLength")
+    tast = None
+    for st in bsi.body:
+        cands = [st] if isinstance(st, ast.Assign) else \
+            (st.body if isinstance(st, ast.If) and U(st.test) in ("maxLength is not None", "self.maxLength is not None", "maxLength != None") and not st.orelse else [])
+        for a in cands:
+            if isinstance(a, ast.Assign) and U(a.targets[0]) == "self.taster":
+                need(tast is None, "ByteStringConstraint.__init__ assigns self.taster twice")
+                tast = a.value
+    for n in ast.walk(bsi):
+        if isinstance(n, ast.Assign) and U(n.targets[0]) == "self.taster":
+            need(n.value is tast, "ByteStringConstraint.__init__ assigns self.taster in a way the translator does not follow")
+    if tast is None:
+        cl = [x.value for x in bsc.body if isinstance(x, ast.Assign) and U(x.targets[0]) == "taster"]
+        need(len(cl) == 1, "ByteStringConstraint has no taster")
+        tast = cl[0]
+    need(isinstance(tast, ast.Dict) and all(isinstance(k, ast.Name) for k in tast.keys), "ByteStringConstraint taster is not a literal table")
+    tmap = {k.id: U(v) for k, v in zip(tast.keys, tast.values)}
+    need(set(tmap) <= {"STRING", "VOCAB"} and tmap.get("STRING") in ("self.maxLength", "maxLength"),
+         "bounded ByteStringConstraint taster is %s" % tmap)
+    need(tmap.get("VOCAB", "None") == "None", "bounded ByteStringConstraint limits VOCAB tokens: %s" % tmap)
+    out.append("Definition bytestring_taster_accepts_vocab : bool := %s.   (* taster of a bounded ByteStringConstraint: %s *)"
+               % ("true" if "VOCAB" in tmap else "false", tmap))
     # the receiver decodes with six.ensure_str and keeps every field (CopiedFailure.setCopyableState)
     scs = U(P.find_def(mod, "CopiedFailure.setCopyableState"))
     for frag in ("self.type = six.ensure_str(state['type'])", "self.value = six.ensure_str(state['value'])",
@@ -547,6 +574,26 @@ def gen_send():
          "doNextCall: ready_deferred is used after d was bound")
     need(not any(isinstance(n, ast.Assign) and any(U(t_) == "d" for t_ in n.targets) for st in after for n in ast.walk(st)), "doNextCall: d is rebound")
     out.append("Definition ready_flag_cleared_on_failure : bool := %s.   (* %s *)" % ("true" if adds[0] == "d.addBoth(_ready)" else "false", adds[0]))
+    # PendingRequest.fail: between marking the request inactive and firing its Deferred only the optional logging block
+    # runs; the one expression in it that can raise for a target without RemoteInterface (interface name None) is the
+    # joined method name, which therefore carries `or "?"` fallbacks
+    cm0 = P.load("call.py")
+    pf = P.find_def(cm0, "PendingRequest.fail")
+    need(isinstance(pf.body[0], ast.If) and U(pf.body[0].test) == "self.active", "PendingRequest.fail: no `if self.active:`")
+    ab = pf.body[0].body
+    need(U(ab[-1]) == "self.deferred.errback(why)" and "self.active = False" in [U(x) for x in ab], "PendingRequest.fail: active branch changed")
+    mn = [n for n in ast.walk(pf) if isinstance(n, ast.Assign) and U(n.targets[0]) == "methname"]
+    need(len(mn) == 1 and isinstance(mn[0].value, ast.Call) and U(mn[0].value.func) == "'.'.join" and len(mn[0].value.args) == 1,
+         "PendingRequest.fail: the logged method name is built differently")
+    arg = mn[0].value.args[0]
+    if isinstance(arg, ast.List) and all(isinstance(e, ast.BoolOp) and isinstance(e.op, ast.Or) and isinstance(e.values[-1], ast.Constant)
+                                         and isinstance(e.values[-1].value, str) and e.values[-1].value for e in arg.elts):
+        fallback = True
+    elif isinstance(arg, ast.Call) or (isinstance(arg, ast.List) and arg.elts):
+        fallback = False        # joins names that may be None
+    else:
+        raise P.Untranslatable("PendingRequest.fail: methname = " + U(mn[0].value))
+    out.append("Definition log_name_has_fallback : bool := %s.   (* methname = %s *)" % ("true" if fallback else "false", U(mn[0].value)[:70]))
     # receive side: a Violation inside a top-level PB sequence makes every unslicer up to the root give the sequence up
     # (reportViolation returns the failure; only the PBRootUnslicer absorbs), so exactly the rest of that one object is
     # discarded.  An unslicer that absorbs stays on the stack and is handed the tokens of the NEXT object.
